@@ -476,6 +476,8 @@ func (g *Gen) weirdAddresses() []string {
 		bech32Prefix + "1",
 		a[:8] + strings.ToUpper(a[8:]),            // mixed case
 		types.ModuleAddress.String(),
+		// a valid address with something around it: not an address (a tolerant parser must not let it into a role slot)
+		a + " ", " " + a, a + "\n", "\t" + a, a + "\x00", a + "q", "0x" + hx(raw), hx(raw),
 	}
 }
 
